@@ -179,7 +179,7 @@ def program_strategy():
 # codes for the late-definition histories: one nobody has a class for, one of the library's, one of the application's
 LATE_CODES = {'fresh': 2960, 'builtin': -32000, 'application': 2002}
 
-ERROR_CLS = ['JsonRpcError', 'JsonRpcError', 'PlainBase', 'IndepBase', 'CodedBase', 'MetaBase']
+ERROR_CLS = ['JsonRpcError', 'JsonRpcError', 'PlainBase', 'IndepBase', 'CodedBase', 'MetaBase', 'SharedBase']
 
 
 class C05(Check):
@@ -209,7 +209,7 @@ class C05(Check):
     ]
     trusted_base = ['reference serialiser in checks/c05.py', 'python json']
     required_classes = ['request', 'response/result', 'response/error', 'error', 'batch_request', 'batch_response', 'batch_error',
-                        'error_cls/PlainBase', 'error_cls/IndepBase', 'error_cls/CodedBase', 'error_cls/MetaBase', 'edge/null-result', 'edge/absent-data', 'edge/null-data',
+                        'error_cls/PlainBase', 'error_cls/IndepBase', 'error_cls/CodedBase', 'error_cls/MetaBase', 'error_cls/SharedBase', 'edge/null-result', 'edge/absent-data', 'edge/null-data',
                         'edge/empty-params', 'edge/code-0', 'edge/empty-message', 'batch_request/empty', 'batch_program/request', 'batch_program/response',
                         'batch_program/grown-after-serialisation', 'batch_program/not-strict', 'batch_program/compared', 'late-class']
 
